@@ -102,5 +102,7 @@ Spec == Init /\ [][Next]_vars
 Refines == [][ S!Pre(Abs(rows, brow), last') /\ S!Post(Abs(rows, brow), last') = Abs(rows', brow') ]_vars
 \* C04 on the design, stated directly
 FrameOK == [][\A c \in BucketNames \ {last'.b} : Abs(rows', brow')[c] = Abs(rows, brow)[c]]_vars
+\* bucket rowids grow with every re-creation: bound them for model checking
+Bound == nextRow <= MaxRows + 2
 IdsGloballyUnique == \A x, y \in rows : x.id = y.id => x = y
 =============================================================================
